@@ -319,3 +319,15 @@ class no_div_safety:
     def __exit__(self, *a):
         ctx.div_safety = self.old
         return False
+
+
+from .loops import cut_loops, Invariant, PredInvariant, SList, seq_len, seq_get   # noqa
+
+
+def skolem(n, name='p'):
+    """fresh internal index 0 <= p < n for use inside invariants / lemmas (not a replayable input)"""
+    k = fresh_int(name)
+    ctx.add(k.z >= 0)
+    ctx.add((k < n).z if not isinstance(n, int) else k.z < n)
+    ctx.add_hint(k)
+    return k
